@@ -217,6 +217,11 @@ def _builtin(ex, st, c, callee, args, fn):
         m = re.match(r'^<(.+) as From<(.+)>>::from$', c)
         if m.group(1) == m.group(2):
             return args[0]
+    m = re.match(r'^<(?:std::boxed::)?Box<(.+)> as Default>::default$', c)
+    if m:
+        cands = ex.prog.resolve('<%s as Default>::default' % m.group(1), 0)
+        if len(cands) == 1:
+            return ex.inline(cands[0], [], st)
     if re.match(r'^<.+ as Clone>::clone$', c):
         cands = ex.prog.resolve(callee, 1)
         if len(cands) != 1:
